@@ -93,35 +93,40 @@ theorem insertDoc_eq (h : expire now c = .ok c') (d : Val) :
       rw [h, hi]
   | _ => rfl
 
+theorem insertStored_eq (h : expire now c = .ok c') (d : Val) :
+    insertStored now c d = insertStored now c' d := by
+  have hi := expire_idem now c c' h
+  have hn : c'.nextOid = c.nextOid := (expire_ok now c c' h).2.2.2.2
+  cases d with
+  | doc fs =>
+    unfold insertStored
+    cases hid : dhas "_id" fs
+    · simp only [hid, Bool.false_eq_true, if_false]
+      rw [hn, expire_nextOid now c c' _ h, expire_nextOid now c' c' _ hi]
+    · simp only [hid, if_true]
+      rw [h, hi]
+  | _ => rfl
+
 /-- the collection left by a rejected insert -/
-def insErrState (now : Int) (c : Coll) (d : Val) : Coll :=
-  let c0 : Coll := match d with
-    | .doc fs => if dhas "_id" fs then c else { c with nextOid := c.nextOid + 1 }
-    | _ => c
-  match expire now c0 with | .ok x => x | .error _ => c0
+abbrev insErrState (now : Int) (c : Coll) (d : Val) : Coll := insertRejected now c d
 
 theorem insErrState_eq (h : expire now c = .ok c') (d : Val) :
     insErrState now c d = insErrState now c' d := by
   have hi := expire_idem now c c' h
   have hn : c'.nextOid = c.nextOid := (expire_ok now c c' h).2.2.2.2
-  have hb : insErrState now c d = c' ∧ insErrState now c' d = c' ∨
-      insErrState now c d = { c' with nextOid := c.nextOid + 1 } ∧
-      insErrState now c' d = { c' with nextOid := c.nextOid + 1 } := by
-    unfold insErrState
-    cases d with
-    | doc fs =>
-      cases hid : dhas "_id" fs
-      · simp only [hid, Bool.false_eq_true, if_false]
-        rw [hn, expire_nextOid now c c' _ h, expire_nextOid now c' c' _ hi]
-        exact .inr ⟨rfl, rfl⟩
-      · simp only [hid, if_true]
-        rw [h, hi]
-        exact .inl ⟨rfl, rfl⟩
-    | _ =>
-      simp only []
+  unfold insErrState insertRejected
+  rw [insertStored_eq h d]
+  congr 1
+  cases d with
+  | doc fs =>
+    cases hid : dhas "_id" fs
+    · simp only [hid, Bool.false_eq_true, if_false]
+      rw [hn, expire_nextOid now c c' _ h, expire_nextOid now c' c' _ hi]
+    · simp only [hid, if_true]
       rw [h, hi]
-      exact .inl ⟨rfl, rfl⟩
-  rcases hb with ⟨h1, h2⟩ | ⟨h1, h2⟩ <;> rw [h1, h2]
+  | _ =>
+    simp only []
+    rw [h, hi]
 
 theorem insertManyLoop_cons (now : Int) (ordered : Bool) (d : Val) (rest : List Val) (idx : Nat)
     (c : Coll) (ids errs : List Val) (n : Nat) :
